@@ -53,6 +53,7 @@ type Engine struct {
 	stats     SolverStats
 	models    map[string]*ssa.Function
 	skipInitPkgs map[string]bool
+	zeroStubs    map[string]bool
 	statsMu   sync.Mutex
 }
 
@@ -270,6 +271,9 @@ func (it *Interp) lookupMethod(typ types.Type, meth *types.Func) *ssa.Function {
 
 // throw builds a Go runtime panic (runtime.Error-like) for the interpreted program.
 func (it *Interp) throw(msg string) *targetPanic {
+	if it.curFrame != nil {
+		it.lastThrowAt = it.curFrame.fn.String()
+	}
 	return &targetPanic{Iface{it.eng.rtErrStr, msg}}
 }
 
@@ -512,6 +516,10 @@ func (it *Interp) callSSA(caller *frame, pos token.Pos, fn *ssa.Function, args [
 		if m, ok := it.eng.models[name]; ok && (caller == nil || caller.fn != m) {
 			it.noteStub("model:" + name + " -> " + m.Name())
 			return it.callSSA(caller, pos, m, args, nil)
+		}
+		if it.eng.zeroStubs[name] {
+			it.noteStub("zero:" + name)
+			return it.zeroResults(fn.Signature)
 		}
 		if h, ok := intrinsics[name]; ok {
 			it.noteStub(name)
